@@ -343,7 +343,8 @@ def main(chk, args):
         for idx, t, info in rejected:
             nrej += 1
             key, _, ctx = b[idx]
-            chk.violation('trace:' + key, f'RetryTrace rejected the recorded behaviour: {info}', dict(trace=t, info=info, **ctx))
+            chk.violation('trace:' + key, f'RetryTrace rejected the recorded behaviour: {info}',
+                          dict(tla_trace=t, info=info, **ctx))
     chk.tlc_runs.append(dict(label='RetryTrace batches', runs=nruns, accepted=nacc, rejected=nrej))
     chk.rule = ('generation cases = abstract service configs enumerated by TLC (Retry.emit.{sel_small,sel_full,sel3,values,table}.cfg: '
                 '1-3 entries, 1-2 names per entry incl. service-level names, other service, suffix-related method names; every '
